@@ -14,6 +14,7 @@ import (
 	"strings"
 	"sync"
 	"sync/atomic"
+	"time"
 
 	"github.com/gocql/gocql"
 	"verifharness/vh"
@@ -52,6 +53,8 @@ type world struct {
 	taint   map[int]bool // hosts with non-commuting concurrent calls not yet settled by a sequential add/remove
 	pending []burstCall  // the burst waiting for its `settle` line
 	mutLog  []mutRec     // which host every notifier call was about (by epoch)
+	// a call of a burst panicked or never returned (it may hold the policy's locks): the policy is not used any more
+	poisoned bool
 }
 
 type mutRec struct{ epoch, id int }
@@ -460,6 +463,9 @@ func (w *world) exec(op string) (res string) {
 	if len(f) == 0 {
 		return "bad-op"
 	}
+	if w.poisoned && f[0] != "reset" && f[0] != "host" {
+		return "poisoned"
+	}
 	switch f[0] {
 	case "reset":
 		if len(f) != 8 {
@@ -493,6 +499,7 @@ func (w *world) exec(op string) (res string) {
 		w.lastPlain = nil
 		w.sessKs, w.ksMeta, w.injSess = "", map[string]string{}, false
 		w.slots, w.epoch, w.taint, w.pending, w.mutLog = map[int]*slot{}, 0, map[int]bool{}, nil, nil
+		w.poisoned = false
 		if w.isTA {
 			w.pol = newTA(fb, f[5] == "1", f[6] == "1")
 			gocql.VerifTAInit(w.pol, "verif_session_ks")
@@ -910,9 +917,31 @@ func (w *world) exec(op string) (res string) {
 				}
 			}(i, c)
 		}
-		wg.Wait()
+		done := make(chan struct{})
+		go func() { wg.Wait(); close(done) }()
+		select {
+		case <-done:
+		case <-time.After(30 * time.Second):
+			// watchdog (never decides on the unchanged code: a burst takes microseconds): counted only with a goroutine
+			// blocked inside gocql code
+			buf := make([]byte, 1<<20)
+			buf = buf[:runtime.Stack(buf, true)]
+			w.poisoned = true
+			if strings.Contains(string(buf), "gocql.(*") {
+				where := ""
+				for _, l := range strings.Split(string(buf), "\n") {
+					if strings.HasPrefix(l, "github.com/gocql/gocql.") {
+						where = l
+						break
+					}
+				}
+				return "crash:a call of the burst did not return within 30 s, goroutine blocked in " + where
+			}
+			return "crash:harness: burst did not finish"
+		}
 		for _, p := range panics {
 			if p != "" {
+				w.poisoned = true
 				return "crash:" + strings.ReplaceAll(p, "\n", " ")
 			}
 		}
@@ -1664,7 +1693,7 @@ func (g *gen) interleaveScenario(idx int) {
 func (g *gen) burstScenario(idx, rounds int) {
 	r := g.r
 	g.kind = []string{"rr", "dc", "rack"}[idx%3]
-	g.ta = idx%4 == 3
+	g.ta = idx%2 == 1
 	g.nonlocal = g.ta && r.Bool()
 	g.ldc, g.lrack = 0, 0
 	g.sess = -1
@@ -1707,6 +1736,12 @@ func (g *gen) burstScenario(idx, rounds int) {
 		g.emit("settle "+g.w.snapshot(), "settle"+cls+"/"+kind, true)
 		g.pickWith("-", "-", 1000, true)
 		if g.ta {
+			// routed queries whose replica lists start at hosts of the burst (token of host id = id*10), and a random one
+			for i, c := range calls {
+				if i < 3 {
+					g.pickWith("0", c[strings.Index(c, ":")+1:]+"0", 1000, true)
+				}
+			}
 			g.pickWith("0", strconv.Itoa(r.Intn(g.n*10)), 1000, true)
 		}
 	}
